@@ -125,7 +125,7 @@ fn starts() -> Vec<Spec> {
 fn sequences_with(len: usize, reduced: bool) -> R {
     let st = starts();
     // length-3 sequences in the quick tier start from the 7 node-shaped envelopes (the others are covered at length 2)
-    let s = if reduced && len == 3 && !rt::thorough() { &st[[4usize, 5, 6, 7, 8, 9, 12][choice(7)]] } else { &st[choice(st.len())] };
+    let s = if reduced && (len == 4 || (len == 3 && !rt::thorough())) { &st[[4usize, 5, 6, 7, 8, 9, 12][choice(7)]] } else { &st[choice(st.len())] };
     if let Ok(f) = std::env::var("SYMORD_DEBUG_START") { rt::assume(s.show() == st[f.parse::<usize>().unwrap()].show())?; }
     let mut e = build(s);
     if let Err(m) = well_formed(&e) { return rt::viol("freshly built envelope not canonical", m); }
@@ -134,7 +134,8 @@ fn sequences_with(len: usize, reduced: bool) -> R {
     let core: [usize; 14] = [0, 1, 2, 4, 5, 6, 7, 9, 14, 16, 23, 24, 26, 28];
     for step in 0..len {
         let quick_core: [usize; 10] = [0, 2, 4, 5, 6, 7, 9, 14, 16, 24];
-        let k = if reduced && !rt::thorough() { quick_core[choice(quick_core.len())] } else if reduced { core[choice(core.len())] } else { choice(N_OPS) };
+        let len4_core: [usize; 8] = [0, 2, 4, 5, 6, 7, 9, 24];
+        let k = if reduced && len == 4 { len4_core[choice(len4_core.len())] } else if reduced && !rt::thorough() { quick_core[choice(quick_core.len())] } else if reduced { core[choice(core.len())] } else { choice(N_OPS) };
         let before = bytes(&e);
         let recv = e.clone();
         let r = apply(k, &e, step as u32)?;
@@ -492,7 +493,7 @@ pub fn prop_c04() -> Prop {
                 bounds: "7 node-shaped starts (quick) / all 13 (thorough) x every sequence of 3 operations out of 10 structural ones (quick) / 14 (thorough) (replace with a present twin, replace_subject by a node sharing an assertion, add, add duplicate, add obscured/clear copy of a present assertion, remove, replace assertion, replace subject by leaf / node, wrap, elide, uncompress_subject, decrypt_subject) x every digest order",
                 api: &["add_assertion", "add_assertion_envelope", "remove_assertion", "replace_assertion", "replace_subject", "wrap_envelope", "elide_removing_target", "uncompress_subject", "decrypt_subject"] },
             Scenario { name: "sequences3_full", f: seq3_full, thorough_only: true, bounds: "every sequence of 3 operations out of all 30", api: &["(all of sequences2)"] },
-            Scenario { name: "sequences4", f: seq4, thorough_only: true, bounds: "every sequence of 4 operations out of the 14 structural ones", api: &["(all of sequences3)"] },
+            Scenario { name: "sequences4", f: seq4, thorough_only: true, bounds: "7 node-shaped starts x every sequence of 4 operations out of 8 (add, remove, replace assertion, replace subject by leaf / node, wrap, elide, add the clear copy of an elided assertion) x every digest order", api: &["(all of sequences3)"] },
         ],
         assumptions: COMMON_ASSUMPTIONS.to_vec(),
     }
